@@ -232,7 +232,7 @@ def Frame.roots : Frame → List Nat
   | .structB _ node pend _ => node :: pend.map (·.2)
   | .structP _ node pend => node :: pend.map (·.2)
   | .store _ c => [c]
-  | .ret c => [c]
+  | .ret _ c => [c]
   | _ => []
 
 /-- the struct node a frame is still building. -/
@@ -250,7 +250,7 @@ def inProg : List Frame → List Nat
   | f :: r => f.prog ++ inProg r
 
 /-- codecs a goroutine got back from finished top-level calls. -/
-def Thread.doneRoots (t : Thread) : List Nat := t.results.filterMap id ++ t.useQ.map (·.1)
+def Thread.doneRoots (t : Thread) : List Nat := t.results.filterMap (·.2) ++ t.useQ.map (·.1)
 
 theorem inProg_sub_roots {st : List Frame} {a : Nat} (h : a ∈ inProg st) : a ∈ stackRoots st := by
   induction st with
@@ -453,21 +453,395 @@ theorem ThreadOK.alloc_struct {h : Heap} {t t' : Thread} (ty : Nat) (ht : Thread
     refine List.nodup_cons.2 ⟨fun hm => ?_, ht.nodup⟩
     exact Nat.lt_irrefl _ (ht.prog _ hm).1
 
+/-! ### steps of the goroutine itself, one lemma per transition -/
 
+/-- what one step must re-establish. -/
+def Post (h : Heap) (_reg : Reg) (t : Thread) (h' : Heap) (reg' : Reg) (t' : Thread) : Prop :=
+  RegOK h' reg' ∧ ThreadOK h' t' ∧ FrameRel h h' (inProg t.stack) (inProg t'.stack)
+
+section
+variable {h : Heap} {rq : List Nat} {cu : Nat} {rs : List (Nat × Option Nat)} {uq : List (Nat × Nat)}
+  {f : Bool} {below : List Frame}
+
+theorem ok_use {reg : Reg} {a d : Nat} {more : List (Nat × Nat)} (hreg : RegOK h reg)
+    (ht : ThreadOK h ⟨[], rq, cu, rs, (a, d) :: uq, f⟩)
+    (hm : ∀ e, e ∈ more → e.1 ∈ kids h a) :
+    Post h reg ⟨[], rq, cu, rs, (a, d) :: uq, f⟩ h reg ⟨[], rq, cu, rs, uq ++ more, f || !okAt h a⟩ := by
+  have hga : Good h a := ht.done a (by simp [Thread.doneRoots])
+  refine ⟨hreg, ⟨fun r hr => (by cases hr), ?_, fun r hr => (by cases hr), List.nodup_nil, ?_⟩,
+    .inl ⟨rfl, fun _ h => h⟩⟩
+  · intro r hr
+    simp only [Thread.doneRoots, List.mem_append, List.mem_map] at hr
+    rcases hr with hr | ⟨e, he | he, rfl⟩
+    · exact ht.done r (by simp [Thread.doneRoots, hr])
+    · exact ht.done _ (by
+        simp only [Thread.doneRoots, List.mem_append, List.mem_map, List.mem_cons]
+        exact .inr ⟨e, .inr he, rfl⟩)
+    · exact hga.kid (hm e he)
+  · have h1 := ht.nofault
+    have h2 := (hga a .root).2
+    simp only at h1
+    simp only [List.not_mem_nil, or_false] at h2
+    simp [h1, h2]
+
+theorem ok_start {reg : Reg} {r : Nat} (hreg : RegOK h reg) (ht : ThreadOK h ⟨[], r :: rq, cu, rs, [], f⟩) :
+    Post h reg ⟨[], r :: rq, cu, rs, [], f⟩ h reg ⟨[.call r], rq, r, rs, [], f⟩ :=
+  ⟨hreg, ht.same rfl (fun r hr => by simp [stackRoots, Frame.roots] at hr) rfl rfl,
+    .inl ⟨rfl, fun _ h => h⟩⟩
+
+theorem ok_loadHit {reg : Reg} {ty c : Nat} (hreg : RegOK h reg)
+    (ht : ThreadOK h ⟨.call ty :: below, rq, cu, rs, uq, f⟩)
+    (hl : viewLoad below reg ty = some c) :
+    Post h reg ⟨.call ty :: below, rq, cu, rs, uq, f⟩ h reg ⟨.ret ty c :: below, rq, cu, rs, uq, f⟩ := by
+  refine ⟨hreg, ht.same rfl ?_ rfl rfl, .inl ⟨rfl, fun _ h => h⟩⟩
+  intro r hr
+  simp only [stackRoots, Frame.roots, List.cons_append, List.nil_append, List.mem_cons] at hr ⊢
+  rcases hr with rfl | hr
+  · rcases viewLoad_spec hl with h1 | ⟨e, he, rfl⟩
+    · exact .inl h1
+    · exact .inr (hreg e he)
+  · exact .inl hr
+
+/-- steps that only rearrange frames holding no new codec address. -/
+theorem ok_local {reg : Reg} {top : Frame} {st' : List Frame} (hreg : RegOK h reg)
+    (ht : ThreadOK h ⟨top :: below, rq, cu, rs, uq, f⟩)
+    (hp : inProg st' = inProg (top :: below))
+    (hr : ∀ r, r ∈ stackRoots st' → r ∈ stackRoots (top :: below)) :
+    Post h reg ⟨top :: below, rq, cu, rs, uq, f⟩ h reg ⟨st', rq, cu, rs, uq, f⟩ :=
+  ⟨hreg, ht.same hp (fun r h => .inl (hr r h)) rfl rfl, .inl ⟨rfl, fun _ h => by rw [hp] at h; exact h⟩⟩
+
+/-- the error path: the whole stack is dropped. -/
+theorem ok_fail {reg : Reg} {st : List Frame} (hreg : RegOK h reg) (ht : ThreadOK h ⟨st, rq, cu, rs, uq, f⟩) :
+    Post h reg ⟨st, rq, cu, rs, uq, f⟩ h reg ⟨[], rq, cu, (cu, none) :: rs, uq, f⟩ :=
+  ⟨hreg, ⟨fun r hr => (by cases hr), fun r hr => ht.done r (by simpa [Thread.doneRoots] using hr),
+    fun r hr => (by cases hr), List.nodup_nil, ht.nofault⟩, .inl ⟨rfl, fun _ h => by cases h⟩⟩
+
+/-- allocation of an immutable node (basic codec, pointer/slice/map wrapper). -/
+theorem ok_alloc {reg : Reg} {st st' : List Frame} {nd : CNode} (hreg : RegOK h reg)
+    (ht : ThreadOK h ⟨st, rq, cu, rs, uq, f⟩) (hok : nd.ok = true)
+    (hk : ∀ c, c ∈ nd.kids → c ∈ stackRoots st) (hp : inProg st' = inProg st)
+    (hr : ∀ r, r ∈ stackRoots st' → r ∈ stackRoots st ∨ r = h.length) :
+    Post h reg ⟨st, rq, cu, rs, uq, f⟩ (h ++ [nd]) reg ⟨st', rq, cu, rs, uq, f⟩ :=
+  ⟨hreg.alloc nd, ht.alloc_own hok hk hp hr rfl rfl,
+    .inr (.inl ⟨nd, rfl, fun a ha => .inr (by rw [hp] at ha; exact ha)⟩)⟩
+
+theorem ok_allocStruct {reg : Reg} {ty ty' : Nat} {fs : List Nat} (hreg : RegOK h reg)
+    (ht : ThreadOK h ⟨.miss ty :: below, rq, cu, rs, uq, f⟩) :
+    Post h reg ⟨.miss ty :: below, rq, cu, rs, uq, f⟩ (h ++ [.structC ty' [] false]) reg
+      ⟨.structB ty h.length [] fs :: below, rq, cu, rs, uq, f⟩ := by
+  refine ⟨hreg.alloc _, ht.alloc_struct ty' rfl ?_ rfl rfl,
+    .inr (.inl ⟨_, rfl, fun a ha => ?_⟩)⟩
+  · intro r hr
+    simp only [stackRoots, Frame.roots, List.map_nil, List.cons_append, List.nil_append,
+      List.mem_cons] at hr ⊢
+    rcases hr with rfl | hr
+    · exact .inr rfl
+    · exact .inl hr
+  · simpa [inProg, Frame.prog] using ha
+
+theorem ok_complete {reg : Reg} {ty node : Nat} {pend : Reg} (hreg : RegOK h reg)
+    (ht : ThreadOK h ⟨.structB ty node pend [] :: below, rq, cu, rs, uq, f⟩) :
+    Post h reg ⟨.structB ty node pend [] :: below, rq, cu, rs, uq, f⟩ (setComplete h node) reg
+      ⟨.structP ty node pend :: below, rq, cu, rs, uq, f⟩ := by
+  have hn : NotOk h node := ht.prog node (by simp [inProg, Frame.prog])
+  have hnd := ht.nodup
+  simp only [inProg, Frame.prog, List.cons_append, List.nil_append, List.nodup_cons] at hnd
+  obtain ⟨ty', fs, _, he⟩ := setComplete_eq hn
+  refine ⟨?_, ⟨?_, ?_, ?_, hnd.2, ht.nofault⟩, .inr (.inr ⟨node, _, ?_, he, ?_⟩)⟩
+  · rw [he]; exact hreg.set_other _ hn
+  · intro r hr
+    exact Semi.complete hn (ht.roots r hr)
+  · intro r hr
+    rw [he]; exact (ht.done r hr).set_other _ hn (by simp)
+  · intro a ha
+    have ha' : a ∈ inProg below := ha
+    exact NotOk.complete_other hn (ht.prog a (by simp [inProg, Frame.prog, ha']))
+      (fun e => hnd.1 (e ▸ ha'))
+  · simp [inProg, Frame.prog]
+  · intro a ha
+    have ha' : a ∈ inProg below := ha
+    simp [inProg, Frame.prog, ha']
+
+theorem ok_field {reg : Reg} {c tc ty node : Nat} {pend : Reg} {todo : List Nat} (hreg : RegOK h reg)
+    (ht : ThreadOK h ⟨.ret tc c :: .structB ty node pend todo :: below, rq, cu, rs, uq, f⟩) :
+    Post h reg ⟨.ret tc c :: .structB ty node pend todo :: below, rq, cu, rs, uq, f⟩ (addField h node c) reg
+      ⟨.structB ty node pend todo :: below, rq, cu, rs, uq, f⟩ := by
+  have hn : NotOk h node := ht.prog node (by simp [inProg, Frame.prog])
+  have hc := ht.roots c (by simp [stackRoots, Frame.roots])
+  obtain ⟨ty', fs, _, he⟩ := addField_eq c hn
+  refine ⟨?_, ⟨?_, ?_, ?_, ht.nodup, ht.nofault⟩, .inr (.inr ⟨node, _, ?_, he, fun _ h => h⟩)⟩
+  · rw [he]; exact hreg.set_other _ hn
+  · intro r hr
+    exact Semi.addField hn (ht.roots r (by
+      simp only [stackRoots, List.mem_append] at hr ⊢; exact .inr hr)) hc
+  · intro r hr
+    rw [he]; exact (ht.done r hr).set_other _ hn (by simp)
+  · intro a ha
+    exact NotOk.addField c hn (ht.prog a ha)
+  · simp [inProg, Frame.prog]
+
+theorem ok_store {reg : Reg} {ty c : Nat} (hreg : RegOK h reg)
+    (ht : ThreadOK h ⟨.store ty c :: below, rq, cu, rs, uq, f⟩) :
+    Post h reg ⟨.store ty c :: below, rq, cu, rs, uq, f⟩ h (viewStore below reg ty c).2.1
+      ⟨.ret ty (viewStore below reg ty c).2.2 :: (viewStore below reg ty c).1, rq, cu, rs, uq, f⟩ := by
+  have hc : Semi h (inProg below) c := ht.roots c (by simp [stackRoots, Frame.roots])
+  have hb : ∀ r, r ∈ stackRoots below → Semi h (inProg below) r := fun r hr =>
+    ht.roots r (by simp only [stackRoots, List.mem_append]; exact .inr hr)
+  obtain ⟨i1, i2, i3, i4⟩ := viewStore_ok (ty := ty) hreg hc hb id
+  have hp : inProg (.ret ty (viewStore below reg ty c).2.2 :: (viewStore below reg ty c).1)
+      = inProg below := i1
+  refine ⟨i2, ⟨?_, ht.done, ?_, ?_, ht.nofault⟩, .inl ⟨rfl, fun a ha => ?_⟩⟩
+  · intro r hr
+    show Semi h (inProg (.ret ty (viewStore below reg ty c).2.2 :: (viewStore below reg ty c).1)) r
+    rw [hp]
+    simp only [stackRoots, Frame.roots, List.cons_append, List.nil_append, List.mem_cons] at hr
+    rcases hr with rfl | hr
+    · exact i4
+    · exact i3 r hr
+  · intro a ha
+    exact ht.prog a (by rw [hp] at ha; exact ha)
+  · show (inProg (.ret ty (viewStore below reg ty c).2.2 :: (viewStore below reg ty c).1)).Nodup
+    rw [hp]; exact ht.nodup
+  · rw [hp] at ha; exact ha
+
+theorem ok_publish {reg : Reg} {ty node k c : Nat} {pend : Reg} (hreg : RegOK h reg)
+    (ht : ThreadOK h ⟨.structP ty node ((k, c) :: pend) :: below, rq, cu, rs, uq, f⟩) :
+    Post h reg ⟨.structP ty node ((k, c) :: pend) :: below, rq, cu, rs, uq, f⟩ h
+      (viewStore below reg k c).2.1
+      ⟨.structP ty node pend :: (viewStore below reg k c).1, rq, cu, rs, uq, f⟩ := by
+  have hc : Semi h (inProg below) c := ht.roots c (by simp [stackRoots, Frame.roots])
+  have hb : ∀ r, r ∈ stackRoots below → Semi h (inProg below) r := fun r hr =>
+    ht.roots r (by simp only [stackRoots, List.mem_append]; exact .inr hr)
+  obtain ⟨i1, i2, i3, _⟩ := viewStore_ok (ty := k) hreg hc hb id
+  have hp : inProg (.structP ty node pend :: (viewStore below reg k c).1) = inProg below := i1
+  refine ⟨i2, ⟨?_, ht.done, ?_, ?_, ht.nofault⟩, .inl ⟨rfl, fun a ha => ?_⟩⟩
+  · intro r hr
+    show Semi h (inProg (.structP ty node pend :: (viewStore below reg k c).1)) r
+    rw [hp]
+    simp only [stackRoots, Frame.roots, List.cons_append, List.mem_cons, List.mem_append,
+      List.mem_map] at hr
+    rcases hr with rfl | ⟨e, he, rfl⟩ | hr
+    · exact ht.roots _ (by simp [stackRoots, Frame.roots])
+    · refine ht.roots _ ?_
+      have hm : e.2 ∈ pend.map (·.2) := List.mem_map.2 ⟨e, he, rfl⟩
+      simp only [stackRoots, Frame.roots, List.cons_append, List.mem_cons, List.mem_append,
+        List.map_cons]
+      exact .inr (.inr (.inl hm))
+    · exact i3 r hr
+  · intro a ha
+    exact ht.prog a (by rw [hp] at ha; exact ha)
+  · show (inProg (.structP ty node pend :: (viewStore below reg k c).1)).Nodup
+    rw [hp]; exact ht.nodup
+  · rw [hp] at ha; exact ha
+
+theorem ok_finish {reg : Reg} {c tc depth : Nat} (hreg : RegOK h reg)
+    (ht : ThreadOK h ⟨[.ret tc c], rq, cu, rs, uq, f⟩) :
+    Post h reg ⟨[.ret tc c], rq, cu, rs, uq, f⟩ h reg ⟨[], rq, cu, (cu, some c) :: rs, [(c, depth)], f⟩ := by
+  have hc : Good h c := ht.roots c (by simp [stackRoots, Frame.roots])
+  refine ⟨hreg, ⟨fun r hr => (by cases hr), ?_, fun r hr => (by cases hr), List.nodup_nil,
+    ht.nofault⟩, .inl ⟨rfl, fun _ h => by cases h⟩⟩
+  intro r hr
+  simp only [Thread.doneRoots, List.filterMap_cons, List.map_cons, List.map_nil,
+    List.mem_append, List.mem_cons] at hr
+  rcases hr with (rfl | hr) | (rfl | hr)
+  · exact hc
+  · exact ht.done r (by simp [Thread.doneRoots, hr])
+  · exact hc
+  · cases hr
+
+end
+/-- every step of the repaired protocol re-establishes the registry invariant
+and the invariant of the stepping goroutine. -/
 theorem stepCore_ok {g : Nat → TNode} {depth : Nat} {reg reg' : Reg} {h h' : Heap} {t t' : Thread}
     (hreg : RegOK h reg) (ht : ThreadOK h t)
-    (hs : stepCore false g depth reg h t = some (reg', h', t')) :
-    RegOK h' reg' ∧ ThreadOK h' t' ∧ FrameRel h h' (inProg t.stack) (inProg t'.stack) := by
-  obtain ⟨stack, requests, results, useQ, fault⟩ := t
+    (hs : stepCore false g depth reg h t = some (reg', h', t')) : Post h reg t h' reg' t' := by
+  obtain ⟨stack, requests, cur, results, useQ, fault⟩ := t
   unfold stepCore at hs
   simp only [Bool.false_eq_true, ↓reduceIte] at hs
   split at hs
   · split at hs
-    · trace_state
-      sorry
-    · sorry
+    · cases hs
+      refine ok_use hreg ht ?_
+      intro e he
+      split at he
+      · cases he
+      · obtain ⟨c, hc, rfl⟩ := List.mem_map.1 he; exact hc
+    · split at hs
+      · cases hs
+      · cases hs; exact ok_start hreg ht
   · split at hs
-    · trace_state
-      sorry
-    all_goals sorry
+    · -- call
+      split at hs
+      · cases hs; exact ok_loadHit hreg ht ‹_›
+      · cases hs; exact ok_local hreg ht rfl (fun r hr => by simpa [stackRoots, Frame.roots] using hr)
+    · -- miss
+      split at hs
+      · cases hs
+        exact ok_alloc hreg ht rfl (fun c hc => by cases hc) rfl
+          (fun r hr => by simpa [stackRoots, Frame.roots, or_comm] using hr)
+      · cases hs; exact ok_local hreg ht rfl (fun r hr => by simpa [stackRoots, Frame.roots] using hr)
+      · cases hs; exact ok_local hreg ht rfl (fun r hr => by simpa [stackRoots, Frame.roots] using hr)
+      · cases hs; exact ok_local hreg ht rfl (fun r hr => by simpa [stackRoots, Frame.roots] using hr)
+      · cases hs; exact ok_allocStruct hreg ht
+      · cases hs; exact ok_fail hreg ht
+    · -- structB
+      split at hs
+      · cases hs; exact ok_local hreg ht rfl (fun r hr => by simpa [stackRoots, Frame.roots] using hr)
+      · cases hs; exact ok_complete hreg ht
+    · -- structP
+      split at hs
+      · cases hs; exact ok_publish hreg ht
+      · cases hs; exact ok_local hreg ht rfl (fun r hr => by simpa [stackRoots, Frame.roots] using hr)
+    · -- store
+      cases hs; exact ok_store hreg ht
+    · -- ret
+      split at hs
+      · cases hs; exact ok_finish hreg ht
+      · split at hs
+        · cases hs
+          refine ok_alloc hreg ht ?_ ?_ rfl
+            (fun r hr => by
+              simp [stackRoots, Frame.roots] at hr ⊢
+              rcases hr with hr | hr <;> simp [hr])
+          · split <;> rfl
+          · intro c hc
+            split at hc <;> simp only [CNode.kids, List.mem_singleton] at hc <;> subst hc <;>
+              simp [stackRoots, Frame.roots]
+        · cases hs; exact ok_local hreg ht rfl (fun r hr => by simpa [stackRoots, Frame.roots] using hr)
+        · cases hs
+          exact ok_alloc hreg ht rfl
+            (fun c hc => by
+              simp only [CNode.kids, List.mem_cons, List.not_mem_nil, or_false] at hc
+              rcases hc with rfl | rfl <;> simp [stackRoots, Frame.roots])
+            rfl (fun r hr => by
+              simp [stackRoots, Frame.roots] at hr ⊢
+              rcases hr with hr | hr <;> simp [hr])
+        · cases hs; exact ok_field hreg ht
+        · cases hs
+    · cases hs
+
+/-! ### the global invariant -/
+
+/-- (I1) + (I2) + in-progress nodes are private to one goroutine. -/
+structure Inv (s : State) : Prop where
+  reg : RegOK s.heap s.registry
+  thr : ∀ i, ThreadOK s.heap (s.threads i)
+  disj : ∀ i j a, i ≠ j → a ∈ inProg (s.threads i).stack → a ∉ inProg (s.threads j).stack
+
+theorem inv_init (g : Nat → TNode) (reqs : List (List Nat)) (d : Nat) : Inv (init g reqs d) :=
+  ⟨fun e he => (by cases he),
+   fun i => ⟨fun r hr => (by cases hr), fun r hr => (by cases hr), fun r hr => (by cases hr),
+     List.nodup_nil, rfl⟩,
+   fun i j a _ ha => (by cases ha)⟩
+
+/-- from the local post-condition of goroutine `i` to the global invariant. -/
+theorem inv_upd {s : State} {i : Nat} {reg' : Reg} {h' : Heap} {t' : Thread} (hi : Inv s)
+    (hp : Post s.heap s.registry (s.threads i) h' reg' t') : Inv (s.upd i reg' h' t') := by
+  obtain ⟨p1, p2, p3⟩ := hp
+  have hnew : ∀ a, a ∈ inProg t'.stack → a ∈ inProg (s.threads i).stack ∨ a = s.heap.length := by
+    intro a ha
+    rcases p3 with ⟨_, q⟩ | ⟨_, _, q⟩ | ⟨_, _, _, _, q⟩
+    · exact .inl (q a ha)
+    · exact (q a ha).symm
+    · exact .inl (q a ha)
+  have hfresh : ∀ j a, a ∈ inProg (s.threads j).stack → a ≠ s.heap.length := fun j a ha e =>
+    Nat.lt_irrefl _ (e ▸ ((hi.thr j).prog a ha).1)
+  refine ⟨p1, fun j => ?_, fun j k a hjk ha hb => ?_⟩
+  · show ThreadOK h' (if j = i then t' else s.threads j)
+    split
+    · exact p2
+    · rename_i hji
+      rcases p3 with ⟨e, _⟩ | ⟨nd, e, _⟩ | ⟨a, nd, ha, e, _⟩
+      · rw [e]; exact hi.thr j
+      · rw [e]; exact (hi.thr j).alloc nd
+      · rw [e]
+        exact (hi.thr j).set_other nd ((hi.thr i).prog a ha) (hi.disj i j a (Ne.symm hji) ha)
+  · have ha' : a ∈ inProg (if j = i then t' else s.threads j).stack := ha
+    have hb' : a ∈ inProg (if k = i then t' else s.threads k).stack := hb
+    by_cases hj : j = i
+    · have hk : ¬ k = i := fun e => hjk (hj.trans e.symm)
+      rw [if_pos hj] at ha'; rw [if_neg hk] at hb'
+      rcases hnew a ha' with h1 | h1
+      · exact hi.disj i k a (Ne.symm hk) h1 hb'
+      · exact hfresh k a hb' h1
+    · rw [if_neg hj] at ha'
+      by_cases hk : k = i
+      · rw [if_pos hk] at hb'
+        rcases hnew a hb' with h1 | h1
+        · exact hi.disj i j a (Ne.symm hj) h1 ha'
+        · exact hfresh j a ha' h1
+      · rw [if_neg hk] at hb'
+        exact hi.disj j k a hjk ha' hb'
+
+theorem step_inv {s s' : State} {i : Nat} (hi : Inv s) (hs : stepThread s i = some s') : Inv s' := by
+  unfold stepThread stepGen at hs
+  cases hc : stepCore false s.graph s.useDepth s.registry s.heap (s.threads i) with
+  | none => rw [hc] at hs; cases hs
+  | some r =>
+    obtain ⟨reg', h', t'⟩ := r
+    rw [hc] at hs
+    cases hs
+    exact inv_upd hi (stepCore_ok hi.reg (hi.thr i) hc)
+
+theorem reorder_inv {s s' : State} {i : Nat} (hi : Inv s) (hs : Reorder s i s') : Inv s' := by
+  cases hs with
+  | @mk ty node pend pend' below hst hperm =>
+    refine inv_upd hi ⟨hi.reg, (hi.thr i).same ?_ ?_ rfl rfl, .inl ⟨rfl, ?_⟩⟩
+    · rw [hst]; rfl
+    · intro r hr
+      left
+      rw [hst]
+      simp only [stackRoots, Frame.roots, List.cons_append, List.mem_cons, List.mem_append,
+        List.mem_map] at hr ⊢
+      rcases hr with rfl | ⟨e, he, rfl⟩ | hr
+      · exact .inl rfl
+      · exact .inr (.inl ⟨e, hperm.mem_iff.1 he, rfl⟩)
+      · exact .inr (.inr hr)
+    · intro a ha
+      rw [hst]; exact ha
+
+theorem reach_inv {s0 s : State} (h0 : Inv s0) (hr : Reach s0 s) : Inv s := by
+  induction hr with
+  | refl => exact h0
+  | step _ hs ih => exact step_inv ih hs
+  | reorder _ hs ih => exact reorder_inv ih hs
+
+theorem Reach.trans {s0 s1 s2 : State} (h1 : Reach s0 s1) (h2 : Reach s1 s2) : Reach s0 s2 := by
+  induction h2 with
+  | refl => exact h1
+  | step _ hs ih => exact .step ih hs
+  | reorder _ hs ih => exact .reorder ih hs
+
+theorem runSchedule_reach {s s' : State} {sched : List Nat}
+    (h : runSchedule s sched = some s') : Reach s s' := by
+  unfold runSchedule at h
+  induction sched generalizing s with
+  | nil => simp only [runWith] at h; cases h; exact .refl
+  | cons i is ih =>
+    simp only [runWith] at h
+    split at h
+    · cases h
+    · rename_i s1 hs
+      exact (Reach.step .refl hs).trans (ih h)
+
+/-! ### the error step -/
+
+/-- the only step that records a failed call drops the stack and touches
+neither the registry nor the heap. -/
+theorem stepCore_fail {g : Nat → TNode} {depth : Nat} {reg reg' : Reg} {h h' : Heap} {t t' : Thread}
+    (hs : stepCore false g depth reg h t = some (reg', h', t'))
+    (hf : t'.results = (t.cur, none) :: t.results) :
+    reg' = reg ∧ h' = h ∧ t'.stack = [] ∧ t'.useQ = t.useQ ∧ t'.fault = t.fault := by
+  obtain ⟨stack, requests, cur, results, useQ, fault⟩ := t
+  unfold stepCore at hs
+  simp only [Bool.false_eq_true, ↓reduceIte] at hs
+  have hne : ∀ x : Nat × Option Nat, ¬ (results = x :: results) := fun x e => by
+    have := congrArg List.length e; simp at this
+  repeat' split at hs
+  all_goals first
+    | (cases hs; done)
+    | (cases hs; exact absurd hf (hne _))
+    | (cases hs; exact ⟨rfl, rfl, rfl, rfl, rfl⟩)
+    | (cases hs; cases hf; done)
+
 end Registry
